@@ -5,6 +5,7 @@ RV_M9_PROP=<Cxx>, RV_M9_OUT=<json path>).  Wrappers are installed on the real cl
 also fire on the library's *internal* calls (prefix grammars with Other/Slash/tuple-named
 nonterminals, renumbered grammars, character-level Lark grammars) - inputs no generator builds.
 
+  C02  value of every parser call the tests make (on the parser's own grammar) against the reference oracle
   C07  structural postconditions (M2) after every normal-form call
   C06  language preservation (M1): reference oracle on the input and output rule lists
   C05  state integrity (M6): rules / V / S / N of every reachable grammar before/after every query
@@ -251,6 +252,57 @@ def _install_automata(ctx, prop):
             _wrap_method(base.WFSA, name, make(name, api))
 
 
+# --------------------------------------------------------------------------- C02
+def _install_parsers(ctx):
+    from genlm.grammar.cfg import CFG
+    from genlm.grammar.parse import cky, earley, earley_rescaled
+
+    from rv import codec, lib
+    from rv.core import close2
+    from rv.ref import cfgref
+
+    oracles = {}
+
+    def judge(api, cfg, x, have):
+        R = _sr_name(cfg.R)
+        if R not in ("Float", "Real", "Boolean", "MaxTimes") or len(cfg.rules) > 70 or len(cfg.rules) == 0:
+            return
+        try:
+            x = tuple(x)
+        except TypeError:
+            return
+        if len(x) > 7 or ctx.api[api]["decided"] >= 400:
+            return
+        key = (id(cfg), len(cfg.rules))
+        fp = codec.fingerprint([api, repr(key), repr(x)])
+        if fp in _STATE["seen"]:
+            return
+        _STATE["seen"].add(fp)
+        try:
+            if key not in oracles:
+                if len(oracles) > 60:
+                    return
+                oracles[key] = lib.oracle_from_cfg(cfg, R)
+            w = oracles[key].weight(x)
+        except (cfgref.NotApplicable, cfgref.Singular, cfgref.NoConverge, cfgref.NonLinear, RecursionError):
+            ctx.skip(api, "m9:oracle-not-applicable")
+            return
+        ctx.shape[f"m9:{api}"] += 1
+        if R in ("Boolean", "MaxTimes"):
+            good = lib.same(R, have, w, exact=True)
+        else:
+            good = close2(lib.have_value(R, have), lib.want_value(R, w), 1e-7, 1e-10)
+        ctx.check(api, good, f"{api}/value", {"m9": True, "S": cfg.S, "rules": _rules_of(cfg)[:70], "x": list(x)},
+                  {"x": list(x), "have": have, "want": lib.want_value(R, w), "test": os.environ.get("PYTEST_CURRENT_TEST")})
+
+    _wrap_method(CFG, "__call__", lambda self, a, kw, out, tok: judge("cfg(xs)", self, a[0], out) if a else None)
+    _wrap_method(earley.Earley, "__call__", lambda self, a, kw, out, tok: judge("Earley(cfg)(xs)", self.cfg, a[0], out) if a else None)
+    _wrap_method(earley_rescaled.Earley, "__call__",
+                 lambda self, a, kw, out, tok: judge("earley_rescaled.Earley(cfg)(xs)", self.cfg, a[0], out) if a else None)
+    _wrap_method(cky.IncrementalCKY, "__call__",
+                 lambda self, a, kw, out, tok: judge("IncrementalCKY(cfg.cnf)(xs)", self.cfg, a[0], out) if a else None)
+
+
 # --------------------------------------------------------------------------- pytest hooks
 def pytest_configure(config):
     if not _enabled():
@@ -268,6 +320,8 @@ def pytest_configure(config):
         _install_language(ctx)
     elif prop == "C05":
         _install_purity(ctx)
+    elif prop == "C02":
+        _install_parsers(ctx)
     elif prop in ("C11", "C13"):
         _install_automata(ctx, prop)
 
